@@ -110,6 +110,7 @@ type loopRec struct {
 	modLocal  []string
 	startDecl int
 	nBack     int
+	exits     int
 }
 
 type frame struct {
@@ -422,6 +423,13 @@ func (ex *Exec) execBody(fr *frame, st *State, guard string) (string, *State, []
 			if back[[2]*ssa.BasicBlock{b, to}] {
 				ex.backEdge(fr, to, eg, es)
 				return
+			}
+			if fr.top && fr.contract != nil && len(fr.contract.LoopExits) > 0 {
+				for h, body := range loops {
+					if body[b] && !body[to] {
+						ex.loopExit(fr, h, ordOf[h], eg, es)
+					}
+				}
 			}
 			incoming[to] = append(incoming[to], edgeIn{b, eg, es})
 		})
@@ -2460,4 +2468,26 @@ func (ex *Exec) recoveredPath(fr *frame) {
 		}
 	}
 	fr.rets = fr.rets[:rets]
+}
+
+// loopExit: the "loop N exit" clauses of the contract, asserted in the state in which the loop is left.
+func (ex *Exec) loopExit(fr *frame, h *ssa.BasicBlock, ord int, g string, s *State) {
+	lr := fr.loops[h]
+	cls := fr.contract.LoopExits[ord]
+	if lr == nil || len(cls) == 0 {
+		return
+	}
+	lr.exits++
+	for i, c := range cls {
+		env := ex.specEnv(fr, s, lr)
+		t, err := env.evalBool(c.Expr)
+		if err != nil {
+			ex.failf("%s loop %d exit: %v", shortFn(fr.fn), ord, err)
+		}
+		sfx := ""
+		if lr.exits > 1 {
+			sfx = fmt.Sprintf(".%d", lr.exits)
+		}
+		ex.oblige(fmt.Sprintf("%s%s#loop%d-exit%s:%s", shortFn(fr.fn), ex.sfx(fr), ord, sfx, clauseLabel(c, i)), "loop-exit", g, t, c.Src, ex.clauseWhere(c))
+	}
 }
